@@ -15,6 +15,9 @@ use bitcoincore_rpc::{
     Client as BitcoindClient, Error::JsonRpc as JsonRpcError, RpcApi,
 };
 
+/// How often the [Carrier] checks by itself whether bitcoind is back while waiting for it.
+const BITCOIND_RECHECK_INTERVAL: std::time::Duration = std::time::Duration::from_secs(5);
+
 /// Component in charge of the interaction with Bitcoind by sending / querying transactions via RPC.
 #[derive(Debug)]
 pub struct Carrier {
@@ -67,7 +70,26 @@ impl Carrier {
         let (lock, notifier) = &*self.bitcoind_reachable;
         let mut reachable = lock.lock().unwrap();
         while !*reachable {
-            reachable = notifier.wait(reachable).unwrap();
+            // The chain monitor flags bitcoind as reachable (and wakes us up) after a successful poll, but it cannot do that
+            // while it waits for us: we may be running on its own thread (a breach found in a block), or be holding a lock
+            // it needs to process the next block. So we also check by ourselves every now and then.
+            let (guard, timeout) = notifier
+                .wait_timeout(reachable, BITCOIND_RECHECK_INTERVAL)
+                .unwrap();
+            reachable = guard;
+            if timeout.timed_out() && !*reachable {
+                drop(reachable);
+                let is_back = !matches!(
+                    self.bitcoin_cli.get_block_count(),
+                    Err(JsonRpcError(TransportError(_)))
+                );
+                reachable = lock.lock().unwrap();
+                if is_back {
+                    log::info!("Connection with bitcoind restored");
+                    *reachable = true;
+                    notifier.notify_all();
+                }
+            }
         }
     }
 
